@@ -210,6 +210,96 @@ def dotted_names_scenario():
     return out
 
 
+def dotted_task_names_scenario():
+    """task names with dots (`model` and `model.part`, the second an input of the first): each log holds its own task's messages only"""
+    from pathlib import Path
+
+    from taskchain import Config, Task
+    from tcv import scratch
+
+    class Part(Task):
+        class Meta:
+            name = 'model.part'
+
+        def run(self) -> int:
+            self.logger.info('PART message')
+            return 1
+
+    class Model(Task):
+        class Meta:
+            name = 'model'
+            input_tasks = [Part]
+
+        def run(self) -> int:
+            self.logger.info('MODEL before')
+            v = self.input_tasks['model.part'].value
+            self.logger.info('MODEL after')
+            return 2 + v
+
+    out = []
+    root = scratch.fresh('c18t')
+    try:
+        for ns in (None, 'n'):
+            ch = Config(Path(root) / f'data_{ns}', name='c', namespace=ns, data={'tasks': [Part, Model]}).chain()
+            pre = f'{ns}::' if ns else ''
+            _ = ch[f'{pre}model'].value
+            mlog = [l for l in (ch[f'{pre}model'].log or []) if 'message' in l or 'MODEL' in l or 'run started' in l or 'run ended' in l]
+            plog = [l for l in (ch[f'{pre}model.part'].log or []) if 'message' in l or 'MODEL' in l]
+            if any('PART' in l or 'model.part' in l for l in mlog) or [l for l in mlog if 'MODEL' in l] != ['MODEL before', 'MODEL after']:
+                out.append(('log of a task holds messages of another task whose name extends its own with a dot', f'namespace {ns}: log of `model`: {ch[f"{pre}model"].log}'))
+            if plog != ['PART message']:
+                out.append(('log of a task with a dotted name is not its own', f'namespace {ns}: log of `model.part`: {ch[f"{pre}model.part"].log}'))
+    except Exception as e:  # noqa
+        out.append(('tasks with dotted names cannot be computed', f'{type(e).__name__}: {e}'))
+    finally:
+        scratch.drop(root)
+    return out
+
+
+def construct_during_run_scenario():
+    """while a task runs, another chain holding a task of the SAME full name is constructed and a stored result is loaded through it
+    (nothing else runs): the log of the running task is complete - everything it logs afterwards is there too"""
+    from pathlib import Path
+
+    from taskchain import Config, Parameter, Task
+    from tcv import scratch
+
+    root = scratch.fresh('c18c')
+    out = []
+
+    class Stats(Task):
+        class Meta:
+            parameters = [Parameter('x'), Parameter('peek', default=None)]
+
+        def run(self, x, peek) -> int:
+            self.logger.info(f'stats x={x} before')
+            other = 0
+            if peek is not None:
+                ch = Config(Path(peek), name='reference', data={'tasks': [Stats], 'x': 10}).chain()   # same full name `stats`
+                _ = ch.tasks_df
+                other = ch['stats'].value                                                              # stored already: loaded, not run
+            self.logger.info(f'stats x={x} after (reference {other})')
+            return x + other
+
+    try:
+        ref_dir = Path(root) / 'ref'
+        Config(ref_dir, name='reference', data={'tasks': [Stats], 'x': 10}).chain()['stats'].value
+        ch = Config(Path(root) / 'data', name='main', data={'tasks': [Stats], 'x': 1, 'peek': str(ref_dir)}).chain()
+        v = ch['stats'].value
+        log = ch['stats'].log or []
+        body = [l for l in log if l.startswith('stats x=')]
+        if v != 11 or body != ['stats x=1 before', 'stats x=1 after (reference 10)'] or not (log and log[-1].endswith('run ended')):
+            out.append(('log of a run is incomplete after another task of the same name was constructed during it', f'value {v}, log {log}'))
+        ref_log = Config(ref_dir, name='reference', data={'tasks': [Stats], 'x': 10}).chain()['stats'].log or []
+        if [l for l in ref_log if l.startswith('stats x=')] != ['stats x=10 before', 'stats x=10 after (reference 0)']:
+            out.append(('log of a stored result changed when it was loaded during another run', f'{ref_log}'))
+    except Exception as e:  # noqa
+        out.append(('constructing a chain during a run fails', f'{type(e).__name__}: {e}'))
+    finally:
+        scratch.drop(root)
+    return out
+
+
 def silent_rerun():
     """success, force, recomputation while logging is switched off process-wide: afterwards the log holds nothing of the older run"""
     import logging
@@ -277,6 +367,12 @@ def run(tier, seed):
     res.add('evaluations')
     for kind, msg in silent_rerun():
         res.violations.append(Violation(f'rec3: {kind}', msg, {'world': 'rec3', 'silent': True, 'hist': []}))
+    res.add('evaluations', 2)
+    for kind, msg in dotted_task_names_scenario():
+        res.violations.append(Violation(f'dotted-task: {kind}', msg, {'world': 'dotted-task', 'dotted_task': True, 'hist': []}))
+    res.add('evaluations')
+    for kind, msg in construct_during_run_scenario():
+        res.violations.append(Violation(f'nested-construct: {kind}', msg, {'world': 'nested-construct', 'construct': True, 'hist': []}))
     res.add('evaluations')
     for kind, msg in dotted_names_scenario():
         res.violations.append(Violation(f'dotted: {kind}', msg, {'world': 'dotted', 'dotted': True, 'hist': []}))
@@ -292,6 +388,10 @@ def replay(case):
     import tcv
 
     tcv.quiet_library()
+    if case.get('dotted_task'):
+        return [Violation(f'dotted-task: {k}', m, case) for k, m in dotted_task_names_scenario()]
+    if case.get('construct'):
+        return [Violation(f'nested-construct: {k}', m, case) for k, m in construct_during_run_scenario()]
     if case.get('dotted'):
         return [Violation(f'dotted: {k}', m, case) for k, m in dotted_names_scenario()]
     if case.get('silent'):
